@@ -38,6 +38,14 @@ LIB_MODULES = {"np", "numpy", "math", "re", "os", "sys", "warnings", "itertools"
 LIB_ARG_MUTATORS = {("np.random", "shuffle"): 0, ("random", "shuffle"): 0, ("np", "put"): 0, ("np", "copyto"): 0, ("np", "place"): 0,
                     ("np", "putmask"): 0, ("np", "fill_diagonal"): 0, ("heapq", "heappush"): 0, ("heapq", "heappop"): 0}
 BENIGN_ATTRS = {"_number_of_staves"}
+# numpy functions whose result is a NEW ndarray (the analysis tracks which local names hold ndarrays, flow-sensitively, to give
+# subscripts of arrays their numpy meaning: a field / slice / index-array subscript is again an array over the same kind of
+# content, not one of its elements)
+ARRAY_FUNCS = {"array", "hstack", "vstack", "concatenate", "column_stack", "stack", "zeros", "ones", "empty", "full", "arange", "unique",
+               "argsort", "sort", "zeros_like", "ones_like", "empty_like", "full_like", "cumsum", "diff", "clip", "round", "abs", "lexsort",
+               "searchsorted", "isin", "isclose", "logical_and", "logical_or", "logical_not", "nonzero", "flatnonzero", "fromiter", "linspace",
+               "repeat", "tile", "asarray", "atleast_1d"}
+ARRAY_METHODS = {"copy", "astype", "view", "reshape", "ravel", "flatten", "squeeze", "argsort", "cumsum", "round", "clip"}
 BUILTIN_CONTAINER_METHODS = MUTATORS | {"copy", "get", "items", "values", "keys", "index", "count", "join", "split", "strip", "lower", "upper",
                                         "format", "startswith", "endswith", "replace", "astype", "tolist", "sum", "mean", "min", "max", "any",
                                         "all", "round", "flatten", "ravel", "reshape", "argsort", "argmax", "argmin", "cumsum", "item", "find",
@@ -305,7 +313,7 @@ class Analyzer:
             env[prm] = {(prm, 0, 0)}
         if fn.cls and fn.pos and not fn.is_static:
             types[fn.pos[0]] = fn.cls
-        ctx = {"fn": fn, "env": env, "types": types}
+        ctx = {"fn": fn, "env": env, "types": types, "arr": set()}
         self.block(fn.node.body, ctx)
 
     def mut(self, ctx, taints, node, what, chain=None, extra_depth=0):
@@ -338,6 +346,11 @@ class Analyzer:
         env = ctx["env"]
         if isinstance(target, ast.Name):
             env[target.id] = norm(taints)  # strong update; branches are joined in stmt()
+            if typ == "<ndarray>":
+                ctx.setdefault("arr", set()).add(target.id)
+                typ = None
+            else:
+                ctx.setdefault("arr", set()).discard(target.id)
             if typ:
                 ctx["types"][target.id] = typ
         elif isinstance(target, (ast.Tuple, ast.List)):
@@ -374,13 +387,21 @@ class Analyzer:
     def branches(self, ctx, blocks, loop=False):
         """run alternative blocks from the same environment and join (union) the results"""
         env0 = {k: set(v) for k, v in ctx["env"].items()}
-        outs = []
+        arr0 = set(ctx.get("arr", ()))
+        outs, arrs = [], []
         for blk in blocks:
             ctx["env"] = {k: set(v) for k, v in env0.items()}
+            ctx["arr"] = set(arr0)
             self.block(blk, ctx)
             if loop:
+                ctx["arr"] &= arr0  # a name is an array inside the loop only if it is one on entry and after an iteration
                 self.block(blk, ctx)  # second iteration sees the effects of the first
             outs.append(ctx["env"])
+            arrs.append(ctx["arr"])
+        ja = set.intersection(*arrs) if arrs else set(arr0)
+        if loop or len(blocks) < 2:
+            ja &= arr0
+        ctx["arr"] = ja
         joined = {k: set(v) for k, v in env0.items()} if loop or len(blocks) < 2 else {}
         for e in outs:
             for k, v in e.items():
@@ -390,9 +411,19 @@ class Analyzer:
     def stmt(self, st, ctx):
         if isinstance(st, ast.Assign):
             v = self.expr(st.value, ctx)
-            typ = self.ctor_type(st.value, ctx)
+            typ = "<ndarray>" if self.is_array_expr(st.value, ctx) else self.ctor_type(st.value, ctx)
             for t in st.targets:
                 self.bind(ctx, t, v, typ)
+            # a local name bound to a module-level /repo function (ps = ps13s1): calls through it use that function's summary
+            if len(st.targets) == 1 and isinstance(st.targets[0], ast.Name):
+                al = ctx.setdefault("fnalias", {})
+                tgt = st.targets[0].id
+                r = self.p.resolve_name(ctx["fn"].module, st.value.id) if isinstance(st.value, ast.Name) and st.value.id not in ctx["env"] else None
+                if isinstance(r, Func):
+                    al[tgt] = al.get(tgt, set()) | {r}
+                    ctx["env"].setdefault(tgt, set())
+                else:
+                    al.pop(tgt, None)
         elif isinstance(st, ast.AnnAssign):
             if st.value is not None:
                 self.bind(ctx, st.target, self.expr(st.value, ctx))
@@ -441,7 +472,7 @@ class Analyzer:
             nenv = dict(ctx["env"])
             for prm in sub.params:
                 nenv[prm] = set()
-            nctx = {"fn": ctx["fn"], "env": nenv, "types": dict(ctx["types"]), "nested": sub}
+            nctx = {"fn": ctx["fn"], "env": nenv, "types": dict(ctx["types"]), "nested": sub, "arr": set(ctx.get("arr", ()))}
             rets_before = set(ctx["fn"].returns)
             for _ in range(2):
                 self.block(st.body, nctx)
@@ -459,6 +490,33 @@ class Analyzer:
                 c = Program._basename(test.args[1])
                 if c in self.p.classes:
                     ctx["types"][test.args[0].id] = c
+
+    def _array_index(self, sl, ctx):
+        """kind of a subscript: 'fancy' (an index ARRAY: numpy returns a new array), 'view' (slice / field name: the same storage), None"""
+        arr = ctx.get("arr", ())
+        if isinstance(sl, ast.Name) and sl.id in arr:
+            return "fancy"
+        if isinstance(sl, ast.Slice) or (isinstance(sl, ast.Constant) and isinstance(sl.value, str)):
+            return "view"
+        if isinstance(sl, ast.Tuple) and sl.elts and all(self._array_index(e, ctx) is not None for e in sl.elts):
+            return "fancy" if any(self._array_index(e, ctx) == "fancy" for e in sl.elts) else "view"
+        return None
+
+    def is_array_expr(self, node, ctx):
+        arr = ctx.get("arr", ())
+        if isinstance(node, ast.Call) and isinstance(node.func, ast.Attribute):
+            f = node.func
+            if isinstance(f.value, ast.Name) and f.value.id in ("np", "numpy") and f.value.id not in ctx["env"] and f.attr in ARRAY_FUNCS:
+                return True
+            if isinstance(f.value, ast.Name) and f.value.id in arr and f.attr in ARRAY_METHODS:
+                return True
+        if isinstance(node, ast.Subscript):
+            kind = self._array_index(node.slice, ctx)
+            if kind == "fancy":
+                return True  # only an ndarray accepts an index array
+            if kind == "view" and isinstance(node.value, ast.Name) and node.value.id in arr:
+                return True
+        return False
 
     def ctor_type(self, node, ctx):
         if isinstance(node, ast.Call):
@@ -492,6 +550,11 @@ class Analyzer:
         if isinstance(n, ast.Subscript):
             base = self.expr(n.value, ctx)
             self.expr(n.slice, ctx)
+            kind = self._array_index(n.slice, ctx)
+            if kind == "fancy":
+                return shallow(base)  # numpy: indexing with an index array copies (a new array over the same element values)
+            if kind == "view" and isinstance(n.value, ast.Name) and n.value.id in ctx.get("arr", ()):
+                return set(base)  # a field or slice of an ndarray is an ndarray over the same storage
             return down(base)
         if isinstance(n, ast.Slice):
             for x in (n.lower, n.upper, n.step):
@@ -631,7 +694,7 @@ class Analyzer:
                 nenv = dict(env)
                 for i, prm in enumerate(sub.pos):
                     nenv[prm] = set(args[i]) if i < len(args) else kw.get(prm, set())
-                nctx = {"fn": fn, "env": nenv, "types": dict(ctx["types"]), "locals_fn": ctx.get("locals_fn", {})}
+                nctx = {"fn": fn, "env": nenv, "types": dict(ctx["types"]), "locals_fn": ctx.get("locals_fn", {}), "arr": set(ctx.get("arr", ()))}
                 before = set(fn.returns)
                 depth = ctx.get("depth", 0)
                 if depth < 3:
@@ -652,6 +715,11 @@ class Analyzer:
                     cp |= new
                     self.changed = True
                 return flat(allargs)
+            if name in ctx.get("fnalias", {}) and not env.get(name):
+                out = set()
+                for g in ctx["fnalias"][name]:
+                    out |= self.apply_summary(ctx, g, self.argmap(g, args, kw), n, via="call through local name %s =" % name)
+                return out
             if name in env and name not in self.p.by_module.get(fn.module, {}):
                 # a local variable holding a callable
                 self.unk(ctx, allargs, n, "call of local callable %s" % name)
